@@ -293,6 +293,40 @@ def check_vacuity(cases, nmax):
     return {f'{k}:{"verified" if v else "rejected"}': nn for (k, v), nn in sorted(c.items())}
 
 
+def reorg_probe(ctx, b, loop, i, stats):
+    """The block at the home height is replaced by another one (a reorganisation connected through Headers.connect) AFTER its
+    header has been used: the old genuine proof must stop verifying (its root is no longer the stored one) and a genuine
+    proof from the new block must verify -- the header consulted is the one CURRENTLY stored at that height."""
+    blk, rng = b.blk, b.rng
+    if not 0 < blk < HLEN:
+        return
+    old_raw = b.raws[i]
+    old_resp = {'merkle': [x[::-1].hex() for x in merkle_branch(b.levels, i)], 'pos': i, 'block_height': blk}
+    new_raws = [make_raw_tx(rng) for _ in range(rng.choice([1, 2, 3, 5]))]
+    levels = merkle_levels([dsha(r) for r in new_raws])
+    prev = dsha(b.chain[(blk - 1) * 112:blk * 112])
+    chain = []
+    for h in range(blk, HLEN):
+        root = levels[-1][0] if h == blk else bytes(rng.getrandbits(8) for _ in range(32))
+        hdr = pack_header(prev, root, bytes(rng.getrandbits(8) for _ in range(32)), 1_600_000_000 + 150 * h + 7, 0x207fffff, rng.getrandbits(32))
+        chain.append(hdr)
+        prev = dsha(hdr)
+    added = loop.run(b.headers.connect(blk, b''.join(chain)), limit=10_000)
+    if added != HLEN - blk or len(b.headers) != HLEN:
+        raise MachineryError(f'could not connect the replacing branch: connect() stored {added}, len={len(b.headers)}')
+    j = rng.randrange(len(new_raws))
+    new_resp = {'merkle': [x[::-1].hex() for x in merkle_branch(levels, j)], 'pos': j, 'block_height': blk}
+    for label, raw, resp, want in (('old-proof-after-reorg', old_raw, old_resp, False), ('new-proof-after-reorg', new_raws[j], new_resp, True)):
+        got = call_real(b.ledger, b.net, loop, b.Transaction, raw, blk, resp, 'arg')
+        stats['evaluations'] = stats.get('evaluations', 0) + 1
+        stats['reorg_probes'] = stats.get('reorg_probes', 0) + 1
+        ctx.count(('reorg', b.n, i, blk, label), nontrivial=True)
+        if got[3] is not None or got[0] is not want:
+            ctx.violation('stale-header-used-after-reorg:' + label,
+                          f'after the block at height {blk} was replaced, {label}: is_verified={got[0]} raised={got[3]}, expected {want}',
+                          {'n': b.n, 'i': i, 'blk': blk, 'label': label, 'raw_tx': raw.hex(), 'response': resp})
+
+
 def run_shard(ctx, nmin, nmax, leafall, stats):
     from .detloop import DetLoop
     consts = {'NMIN': nmin, 'NMAX': nmax, 'HLEN': HLEN, 'LEAFALL': leafall, 'EMIT': True}
@@ -355,6 +389,8 @@ def run_shard(ctx, nmin, nmax, leafall, stats):
             if n in (5, 7) and i == n - 1 and blk == 1 + ((n + i) % (HLEN - 1)) and c['kind'] in ('none', 'flip'):
                 ctx.sample({'case': brief(c), 'branch': [x[::-1].hex()[:16] + '..' for x in branch], 'txid': dsha(raw)[::-1].hex(),
                             'spec_verified': c['verified'], 'real_is_verified': got[0], 'real_position': got[1]}, cap=8)
+        if n <= 9 or (n + i) % 7 == 0:
+            reorg_probe(ctx, b, loop, i, stats)
         if loop.exceptions:
             raise MachineryError(f'exceptions escaped into the loop: {loop.exceptions[:2]}')
     ctx.cov['traces_validated_against_impl'] += len(cases)
